@@ -14,6 +14,7 @@ Steering (no source hooks, harness-side only):
 The code under test (SneakyPool.map, SneakyProcess.run, Process.run, Process.run_jobs,
 AbstractInitializer.samples_from_model, emcee's compute_log_prob via pool.map) is unmodified.
 """
+import gc
 import json
 import logging
 import os
@@ -266,16 +267,17 @@ class JobQueueProxy:
 
 
 def cleanup_children():
+    # a finished map that raised leaves the pool in a reference cycle (exception -> traceback -> generator
+    # frame -> exception); collect it now so that SneakyPool.__del__ runs here and not inside a later fork
+    gc.collect()
     GATED.value = 0
-    for g in GATES:
-        for _ in range(64):
-            g.release()
-    for p in mp.active_children():
-        p.join(0.2)
-    for p in mp.active_children():
+    alive = mp.active_children()
+    for p in alive:
         p.terminate()
+    for p in alive:
+        p.join(2.0)
     for p in mp.active_children():
-        p.join(1.0)
+        p.kill()
     for g in GATES:
         while g.acquire(False):
             pass
@@ -318,6 +320,7 @@ class SteeredPool:
             for _ in range(64):
                 g.release()
         del pool
+        gc.collect()
 
 
 def evals_of(jids):
@@ -553,6 +556,13 @@ class GatedProcess(process_mod.Process):
         st.procs[w] = self
         self.queue = ResultQueueProxy(self.queue, st, w)
 
+    def join(self, timeout=None):
+        # after the collection loop run_jobs joins every worker with a timeout; a worker that waits at its
+        # gate would only burn that timeout (what happens after the loop is not an observable of C14)
+        if self.is_alive():
+            self.terminate()
+        return super().join(timeout)
+
 
 def describe(item):
     if isinstance(item, Exception):
@@ -638,7 +648,9 @@ def main():
     for c in cases:
         signal.alarm(90)
         try:
+            t0 = time.time()
             out.append({"ok": KINDS[c["kind"]](c)})
+            out[-1]["t"] = [round(time.time() - t0, 3)]
         except Stall as e:
             out.append({"exc": "Stall", "msg": str(e)[:300]})
         except CaseTimeout:
@@ -652,7 +664,13 @@ def main():
                 cleanup_children()
             except BaseException:  # noqa
                 pass
-    json.dump({"results": out}, open(sys.argv[2], "w"))
+    with open(sys.argv[2], "w") as f:
+        json.dump({"results": out}, f)
+    sys.stdout.flush()
+    sys.stderr.flush()
+    for p in mp.active_children():
+        p.kill()
+    os._exit(0)
 
 
 main()
